@@ -304,7 +304,7 @@ Components ==
     [] S = "pst13" -> {"replace:w0", "replace:w_last"} \cup (IF \E l \in L : polys[l].hid # NONE THEN {"replace:random_v", "drop_random_v"} ELSE {})
     [] S = "ipa" -> {"replace:l0", "replace:r_last", "replace:final_comm_key", "replace:c"}
                     \cup (IF \E l \in L : polys[l].hid # NONE THEN {"replace:hiding_comm", "replace:rand"} ELSE {})
-    [] S = "hyrax" -> {"replace:com_eval", "replace:com_d", "replace:com_b", "replace:z0", "replace:z_d", "replace:z_b"}
+    [] S = "hyrax" -> {"replace:com_eval", "replace:com_d", "replace:com_b", "replace:z0", "replace:z_last", "replace:z_d", "replace:z_b"}
     \* first and last element of every list, and Merkle digests at a position whose leaf index occurred before
     [] OTHER -> {"replace:v0", "replace:col0", "replace:path0", "replace:v_last", "replace:col_last",
                  "sibling:path_last", "sibling:path_repeat", "authpath:path_repeat"}
@@ -321,6 +321,8 @@ Shapes ==
 
 FirstKey(st) == CHOOSE key \in ClaimKeys(st) : \A k2 \in ClaimKeys(st) : ~LexLess(k2, key)
 FalseValue(st) == ValueMove(FirstKey(st), "plus")
+\* the claim about the last polynomial of the first group
+LastValueFalse(st) == LET gr == GroupsOfStmt(st)[1] IN ValueMove(<<gr.labels[Len(gr.labels)], gr.pt>>, "plus")
 
 PlansC03(st) ==
   LET key == FirstKey(st) l1 == key[1] IN
@@ -337,6 +339,8 @@ PlansC03(st) ==
         ELSE {})
   \* single component replaced, together with a false claimed value
   \cup {Plan("component", "not_accept", <<ProofMut(1, c, 0), FalseValue(st)>>) : c \in Components}
+  \cup {Plan("component", "not_accept", <<ProofMut(1, c, 1), LastValueFalse(st)>>) :
+          c \in {x \in Components : (S = "hyrax" \/ LinCode(S)) /\ prs[1] # <<>> /\ prs[1][1].n >= 2}}
   \* shape mutations, together with a false claimed value
   \cup {Plan("shape", "not_accept", <<ProofMut(1, sh[1], sh[2]), FalseValue(st)>>) :
           sh \in {x \in Shapes : x[1] \notin ForgeKinds}}
@@ -444,6 +448,9 @@ PlansC10(st) ==
           ld \in {x \in L \X (BoundSet(keys) \cup {NONE}) : EnforcesBounds(S) /\ ~SameBound(x[2], BoundOf(polys[x[1]]))
                                                              /\ polys[x[1]].cls # "zero"}}
   \cup {Plan("c:proof", "ref", <<ProofMut(g, c, 0)>>) : g \in DOMAIN prs[1], c \in Components}
+  \* ... and in the LAST polynomial's proof entry (Hyrax, linear codes: one entry per polynomial of the group)
+  \cup {Plan("c:proof", "ref", <<ProofMut(g, c, 1)>>) :
+          g \in {x \in DOMAIN prs[1] : (S = "hyrax" \/ LinCode(S)) /\ prs[1][x].n >= 2}, c \in Components}
   \* (an unblinded constant or zero polynomial has commitment v G resp. 0 and witness 0: both sides of
   \*  every pairing equation are the identity whatever the key, so key elements only matter when some
   \*  polynomial of the statement contributes)
@@ -547,7 +554,10 @@ ApplyToProofs(ps, st, m) ==
          [g \in DOMAIN ps |-> IF g = 1 THEN [ps[g] EXCEPT !.pt = m.pt2] ELSE ps[g]]
     [] m.kind = "proof_mut" ->
          LET g == m.l + 1
-             ent == IF S = "hyrax" \/ LinCode(S) THEN 1 ELSE 0
+             \* Hyrax / linear codes: one proof entry per polynomial; replacements with k = 1 act on the last entry
+             ent == IF S = "hyrax" \/ LinCode(S)
+                    THEN (IF m.k = 1 /\ m.comp \in Components /\ g \in DOMAIN ps THEN ps[g].n ELSE 1)
+                    ELSE 0
              nm == IF m.comp \in {"rounds_unequal"} THEN "rounds" ELSE m.comp IN
          IF g \notin DOMAIN ps THEN ps
          ELSE IF m.comp = "inner_empty" THEN [ps EXCEPT ![g].n = 0]
